@@ -1,9 +1,60 @@
-(* Props/C19.v -- property C19 (statements proved so far; see DESIGN.md section 7 C19). *)
-From Coq Require Import NArith List Bool.
-From NRF Require Import Env.Radio Env.RadioFacts.
+(* Props/C19.v -- property C19 (received BLE packets decode to what was advertised; all else is ignored safely).
+   Statements about the model of fake_ble.py's receive path (Ble/Ble.v), each closed by `exact`. *)
+From Coq Require Import ZArith NArith List Bool.
+From NRF Require Import Ble.Ble Ble.BleFacts.
 Import ListNotations.
-Local Open Scope N_scope.
-Theorem C19_status_is_pre_command : forall r cmd data,
-  hd 0 (snd (spi r (cmd :: data))) = status r.
-Proof. exact spi_status_first. Qed.
-Print Assumptions C19_status_is_pre_command.
+
+(* available() never raises: the receive step is defined for EVERY payload (any bytes, any length), including
+   CRC-valid packets with malformed or truncated data structures *)
+Theorem C19_available_never_raises : forall s raw, exists s', receive s raw = BOk s'.
+Proof. exact receive_total. Qed.
+Print Assumptions C19_available_never_raises.
+
+(* a payload either leaves the object untouched or passed the length test and the CRC-24 test and was queued
+   as exactly one element, at the end of the queue *)
+Theorem C19_only_consistent_packets_are_queued : forall s raw s',
+  receive s raw = BOk s' ->
+  s' = s \/
+  (let cache := whiten s (reverse_bits raw) in
+   let end_ := (N.to_nat (byte_at cache 1) + 2)%nat in
+   (end_ < 30)%nat /\ sub (firstn (end_ + 3) cache) end_ (end_ + 3) = crc24_ble (firstn end_ (firstn (end_ + 3) cache))
+   /\ exists e, parse_element (firstn (end_ + 3) cache) = BOk e /\ rx_queue s' = rx_queue s ++ [e]).
+Proof. exact receive_cases. Qed.
+Print Assumptions C19_only_consistent_packets_are_queued.
+
+(* every packet advertise() produces (any name, PA-level field, chunks that fit, any of the three channels) is
+   queued by a receiver on the same channel as ONE element carrying the sender's MAC *)
+Theorem C19_advertised_packet_is_queued : forall s s' payload f,
+  length (mac s) = 6%nat -> name_ok s -> bytes (mac s) -> bytes payload ->
+  match name s with Some b => bytes b | None => True end ->
+  (curr_freq s <= 2)%N -> curr_freq s' = curr_freq s ->
+  advertise s payload = BOk f ->
+  exists e, receive s' (pad32 f) = BOk (mkB (curr_freq s') (channel s') (show_dbm s') (name s') (mac s') (pa s') (rx_queue s' ++ [e]))
+            /\ e_mac e = mac s.
+Proof. exact advertised_is_queued. Qed.
+Print Assumptions C19_advertised_packet_is_queued.
+
+(* temperatures: the 24-bit mantissa (hundredths of a degree) round-trips for every value in the signed
+   24-bit range, negative ones included (-300.00..+300.00 is -30000..30000) *)
+Theorem C19_temperature_roundtrip : forall c, (-8388608 <= c < 8388608)%Z -> temp_centi (temp_encode c) = c.
+Proof. exact temp_roundtrip. Qed.
+Print Assumptions C19_temperature_roundtrip.
+
+(* read() returns the queued elements in arrival order, each once *)
+Theorem C19_read_is_fifo : forall s e t,
+  rx_queue s = e :: t -> fst (ble_read s) = Some e /\ rx_queue (snd (ble_read s)) = t.
+Proof. intros s e t H. unfold ble_read. rewrite H. split; reflexivity. Qed.
+Print Assumptions C19_read_is_fifo.
+
+(* non-vacuity: a concrete advertisement with a name, the PA-level field and a battery chunk is decoded *)
+Example C19_example :
+  let s := match set_name (init_bst [1; 2; 3; 4; 5; 6]%N) (Some [110; 82]%N) with BOk x => x | BExn _ => init_bst [] end in
+  let s := match set_show s true with BOk x => x | BExn _ => s end in
+  match advertise s [4; 22; 15; 24; 77]%N with
+  | BOk f => match receive (init_bst [9; 9; 9; 9; 9; 9]%N) (pad32 f) with
+             | BOk r => map (fun e => (e_mac e, e_name e, e_pa e, e_data e)) (rx_queue r)
+             | BExn _ => []
+             end
+  | BExn _ => []
+  end = [([1; 2; 3; 4; 5; 6]%N, Some [110; 82]%N, Some 0%Z, [DRaw [2; 1; 5]%N; DBatt [77]%N])].
+Proof. vm_compute. reflexivity. Qed.
